@@ -29,6 +29,9 @@ def cases(ctx):
     for fam in ("DTLZI", "DTLZII", "DTLZIII", "DTLZIV", "ZDT1", "BiObjectiveTestProblem"):
         for rep in range(ctx.pick(3, 60)):
             yield "threads", {"family": fam, "seed": ctx.subseed("th", fam, rep)}
+    for fam in ("DTLZI", "DTLZII", "DTLZIII", "DTLZIV"):
+        for rep in range(ctx.pick(6, 300)):
+            yield "siblings", {"family": fam, "seed": ctx.subseed("sib", fam, rep)}
     for fam in ("DTLZI", "DTLZII", "DTLZIII", "DTLZIV", "ZDT1", "BiObjectiveTestProblem"):
         for rep in range(ctx.pick(1, 4)):
             yield "long_history", {"family": fam, "seed": ctx.subseed("lh", fam, rep), "points": ctx.pick(20000, 70000)}
@@ -173,6 +176,48 @@ def run_case(ctx, name, params):
                     ctx.violation("%s/norm_identity" % fam, "objective vector has norm %r, 1+g is %r" % (got, exp), wit())
                     return
             ctx.sample({"family": fam, "m": m, "x": x[:4] + ["..."], "f": f}, fam, 1)
+    elif name == "siblings":
+        # several problem objects of one family alive at once (different objective counts and dimensions), created in one order and
+        # evaluated in another, again and again: what one of them answers never depends on which sibling was created or used last
+        fam = params["family"]
+        specs = []
+        for _ in range(r.randint(2, 5)):
+            m = r.randint(2, 6)
+            k = r.randint(1, 12) if fam == "DTLZI" else 10
+            specs.append((m, k, m + k - 1))
+        probs = [(m, k, n, hooks.tame(getattr(bp, fam)(dimension=n, m=m))) for m, k, n in specs]
+        for _round in range(3):
+            order = list(range(len(probs)))
+            r.shuffle(order)
+            for i_ in order:
+                m, k, n, prob = probs[i_]
+                for _ in range(4):
+                    x = [posval(r, fam) for _ in range(m - 1)] + [r.choice([0.5, r.random(), r.random()]) for _ in range(k)]
+                    f = ev(prob, x, False, fam)
+                    ctx.count("sibling_evaluations")
+                    if f is None:
+                        return
+                    wit = lambda: {"family": fam, "m": m, "n": n, "x": x, "f": f, "siblings": specs}
+                    if len(f) != m:
+                        ctx.violation("%s/objective_count" % fam, "%d objectives for m=%d (other problem objects of the family are alive)"
+                                      % (len(f), m), wit())
+                        return
+                    tail = x[n - k:]
+                    if fam == "DTLZI":
+                        okk = oracles.close(sum(f), 0.5 * (1 + g_dtlz1(tail)), REL, 1e-9)
+                    else:
+                        g = g_dtlz2(tail) if fam in ("DTLZII", "DTLZIV") else g_dtlz1(tail)
+                        okk = oracles.close(math.sqrt(sum(v * v for v in f)), 1 + g, REL, 1e-9)
+                    if not okk:
+                        ctx.violation("%s/identity_with_siblings" % fam, "%s violates its defining identity while other problem objects of the "
+                                      "family are alive" % fam, wit())
+                        return
+            if _round == 1 and r.random() < 0.5:
+                m = r.randint(2, 6)
+                probs.append((m, 10 if fam != "DTLZI" else 3, m + (9 if fam != "DTLZI" else 2),
+                              hooks.tame(getattr(bp, fam)(dimension=m + (9 if fam != "DTLZI" else 2), m=m))))
+        ctx.nontrivial(("sib", fam, params["seed"]))
+        ctx.count("cases")
     elif name == "long_history":
         # one benchmark object over a long run (an optimisation evaluates tens of thousands of designs on one problem object): a few
         # sentinel points are evaluated first and again every 4096 evaluations and at the end -- every answer must be the first one
